@@ -120,9 +120,15 @@ def rule_cover(ctx):
     ctx.violation(R, f.where, "giant step point", "giant steps are not multiples of the generator")
     return
   step = -ba.args[3]            # giant step size t (points are p - j*t*G)
-  T_val = e.state.env.get("table_size")
+  # the table size by role: what the baby-step table is (re)built with - self.PointTable(base, T) - whatever the local is called
+  T_val = None
+  for e2 in w.events:
+    if e2.kind == "call" and e2.data["name"] == "meth:PointTable" and len(e2.data["args"]) >= 2 and isinstance(e2.data["args"][1], Poly):
+      T_val = e2.data["args"][1]
   if T_val is None:
-    ctx.incomplete(R, f.where, "table size", "no `table_size` variable")
+    T_val = e.state.env.get("table_size")
+  if T_val is None:
+    ctx.incomplete(R, f.where, "table size", "no table size found (second argument of self.PointTable)")
     return
   T = as_poly(T_val)
   Ta = T.as_atom()
